@@ -5,7 +5,7 @@ name, src, prop, needs, det = sys.argv[1:6]
 d = os.path.join(os.path.dirname(os.path.dirname(os.path.abspath(__file__))), "seeded", name)
 os.makedirs(d, exist_ok=True)
 for f in os.listdir(src):
-    if f.startswith(("patch.diff", "demo.", "notes.md")):
+    if f in ("patch.diff", "demo.py", "demo.sh", "notes.md"):
         shutil.copy(os.path.join(src, f), d)
 conf = ""
 for log in ("/tmp/seed-confirm-1.log", "/tmp/seed-confirm-2.log", "/tmp/seed-confirm-3.log", "/tmp/seed-confirm-4.log", "/tmp/seed-confirm-5.log"):
